@@ -181,6 +181,13 @@ CANDIDATES = {
     "C11": K1Spec("C11", ["C11"]),
     "C12": K1Spec("C12", ["C12", "C01", "C03-result"]),
     "C17": K1Spec("C17", ["C17"]),
+    "C19": FnSpec([lambda prop, tier, seed: __import__("k_res").run(prop, tier, seed)],
+                  trust=["fake numpy module (ndarray/number/bool_/iscomplexobj) injected in the C19 child process: numpy is absent from this sandbox",
+                         "os.fork for fresh-vs-warm comparisons"],
+                  assume=["type-determinedness of the library's identifiers is measured on a pool of 35 values (27 types), not proved for all Python types"],
+                  expl="Theorems in coq/Props/C19.v (memo transparency for every history, under type-determinedness outside the blocklist); "
+                       "Resolver.get_type tied to utils.AbstractTypeResolver by a differential on synthetic identifier tables evaluated inside Coq; "
+                       "the premise is a generated obligation checked by vm_compute on measured identifier values; failing-input search = fresh fork vs warmed-up fork."),
     "C08": FnSpec([k4_run],
                   trust=["strace 6.1 (syscall trace and SIGKILL injection); in-process writer shim (harness/k4_child.py) for byte-prefix crash points"],
                   assume=["process crash only (no power loss / fsync claim)", "POSIX rename is atomic within a directory; open(...,'wb') truncates",
